@@ -209,7 +209,9 @@ class CFG:
             tn.test = st.test
             t, f = self._branches(tn, st.test, ctx)
             brk = []
-            lctx = dict(ctx, loop=(tn, brk, len(self._finally_stack)), loops=ctx['loops'] + (st,))
+            # the `while True: ..; break` wrapper that normalize.py puts around an inlined helper is not a loop of the program
+            own = () if getattr(st, '_inline_wrapper', False) else (st,)
+            lctx = dict(ctx, loop=(tn, brk, len(self._finally_stack)), loops=ctx['loops'] + own)
             body = self._block(st.body, [t], lctx)
             for e in body:
                 self._edge(e, tn)
@@ -470,6 +472,15 @@ class CFG:
         self._facts_cache[key] = (list(facts), list(facts.resolved))
         return facts
 
+    def facts_symbolic(self, n: Node):
+        """facts_at(n) with every test written out symbolically (locals replaced by their defining expressions, parameters by
+        $N): `x = tbl.get_one(h); if x is not None: raise` and `if tbl.get_one(h) is not None: raise` give the same fact."""
+        out = []
+        for b in self.nodes:
+            if b.kind == 'branch' and b.label in (True, False) and b is not n and self.dominates(b, n):
+                _atoms(self.symbolic(b, b.test), b.label, out)
+        return out
+
     # ------------------------------------------------------------------ aliases
     def _rd(self, name):
         rd = self._rd_cache.get(name)
@@ -595,7 +606,7 @@ class CFG:
                 if depth > 0:
                     v = self.origin_expr(d, v, depth - 1, tests) or v
                 mapping[name] = v
-            elif tests and _pure_test(v) and not self._assigned_in_function(v):
+            elif tests and _pure_test(v) and self._stable_between(d, n, v):
                 if depth > 0:
                     v = self.origin_expr(d, v, depth - 1, tests) or v
                 test_mapping[name] = v
@@ -625,6 +636,20 @@ class CFG:
         if not mapping and not hit:
             return None
         return R().visit(c)
+
+    def _stable_between(self, d: Node, n: Node, e) -> bool:
+        """Does e evaluate to the same value at n as at d?  Local names: the same definitions reach both nodes (a loop
+        variable is "assigned" by its loop but not between a statement of the body and a later one of the same iteration);
+        attribute chains: nothing in the function stores to them."""
+        for x in ast.walk(e):
+            if isinstance(x, ast.Name) and isinstance(x.ctx, ast.Load) and x.id != 'self':
+                rd = self._rd(x.id)
+                if rd.get(d.id, set()) != rd.get(n.id, set()):
+                    return False
+        if self._stores is None:
+            self._assigned_in_function(ast.Constant(value=None))
+        attrs = {ast.unparse(x) for x in ast.walk(e) if isinstance(x, ast.Attribute)}
+        return not (attrs & self._stores)
 
     def _assigned_in_function(self, e) -> bool:
         """Is any name / attribute chain read by e a store target somewhere in this function?"""
